@@ -312,7 +312,11 @@ func renderRuleRecord(t ruleTuple, n int, variant int) (line string, want map[st
 				mask = "rm"
 			}
 		}
-		line = head + fmt.Sprintf(`operation=%s class="file" profile=%s name=%s%s%s requested_mask=%s denied_mask=%s fsuid=1000 ouid=%s`, q(op), q(prof), q(name), target, pidcomm, q(mask), q(mask), ouid)
+		denied := mask
+		if t.Verdict == "DENIED" && len(mask) > 1 && variant%2 == 1 {
+			denied = mask[len(mask)-1:] // only part of what was requested was refused: the rule must still cover the request
+		}
+		line = head + fmt.Sprintf(`operation=%s class="file" profile=%s name=%s%s%s requested_mask=%s denied_mask=%s fsuid=1000 ouid=%s`, q(op), q(prof), q(name), target, pidcomm, q(mask), q(denied), ouid)
 		want["kind"] = "file"
 		if mask == "l" {
 			want["kind"] = "link"
@@ -552,6 +556,29 @@ func checkC16(e *Env, r *Report) {
 		nHist++
 	}
 	r.Coverage["record_histories"] = nHist
+	// signal histories
+	nSig := 0
+	for hi, h := range res.PrintsWithPrefix("BEHS") {
+		var seq []struct {
+			Acc string `json:"acc"`
+			Sig string `json:"sig"`
+		}
+		if err := json.Unmarshal([]byte(h), &seq); err != nil {
+			r.Fatal = "bad BEHS"
+			return
+		}
+		prof := "sig" + lettersOf(hi+1)
+		for k, it := range seq {
+			line := fmt.Sprintf(`type=AVC msg=audit(17100%05d.%03d:%d): apparmor="ALLOWED" operation="signal" class="signal" profile="%s" pid=%d comm="cmd" requested_mask="%s" denied_mask="%s" signal=%s peer="peerlabel"`,
+				hi, k, hi*10+k, prof, 5000+hi, it.Acc, it.Acc, it.Sig)
+			want := map[string]any{"kind": "signal", "qual": "", "mask": []string{}, "ownereligible": false, "tokens": []string{it.Acc, it.Sig, "peerlabel"}, "name": "", "profile": prof}
+			batch = append(batch, line)
+			pend = append(pend, pending{want: want, name: "", t: ruleTuple{Cls: "signal", Mask: it.Acc + "/" + it.Sig, Verdict: "ALLOWED"}, hist: "sighist:" + h})
+		}
+		flush()
+		nSig++
+	}
+	r.Coverage["signal_histories"] = nSig
 	nWant += len(recs)
 	n := 0
 	for _, t := range tuples {
